@@ -2,7 +2,7 @@
    it issues on the backing file.  Definitions only; proofs are in Proofs/InPlace*Proofs.v.
 
    Sources modelled (statement by statement):
-     /repo/pycdlib/pycdlib.py  PyCdlib.modify_file_in_place                  -> modify_run / modify
+     /repo/pycdlib/pycdlib.py  PyCdlib.modify_file_in_place                  -> modify_run_gen / modify_run / modify
      /repo/pycdlib/utils.py    copy_data / copy_data_yield, zero_pad         -> copy_data, zero_pad
      /repo/pycdlib/headervd.py remove_from_space_size, add_to_space_size,
                                copy_sizes, record (space size + modification
@@ -215,10 +215,13 @@ Fixpoint vd_writes (lbs : Z) (now : list Z) (vs : list vdesc) : list write * boo
 
 Definition stopped (ws : list write) : outcome := match ws with [] => Refused | _ => Partial ws end.
 
-Definition modify_run (st : state) (length : Z) (fp now : list Z) : outcome :=
+(* [check_negative] = the test "if length < 0: raise PyCdlibInvalidInput" that /repo commit 0411073 added after
+   the open-mode test; modify_run is the code as it is now, modify_run_before_0411073 the code before that fix *)
+Definition modify_run_gen (check_negative : bool) (st : state) (length : Z) (fp now : list Z) : outcome :=
   let lbs := st_lbs st in
   if negb (st_initialized st) then Refused else
   if negb (mode_ok (st_mode st)) then Refused else
+  if check_negative && (length <? 0) then Refused else
   match st_child st with
   | ChNotFound => Refused
   | _ =>
@@ -235,6 +238,9 @@ Definition modify_run (st : state) (length : Z) (fp now : list Z) : outcome :=
     | _ => Refused          (* a directory; 'Child file found without inode' *)
     end
   end.
+
+Definition modify_run : state -> Z -> list Z -> list Z -> outcome := modify_run_gen true.
+Definition modify_run_before_0411073 : state -> Z -> list Z -> list Z -> outcome := modify_run_gen false.
 
 (* the call with an fp that holds exactly the new content *)
 Definition modify (st : state) (new_data now : list Z) : outcome :=
